@@ -33,7 +33,7 @@ KINDS = MUTATORS + ["set_param"]
 
 
 def plan(tier):
-    n = 192 if tier == "quick" else 6000
+    n = 192 if tier == "quick" else 2400
     return [{"lane": "main", "n": n, "timeout": 1200 if tier == "quick" else 3400, "min_per_shard": 4}]
 
 
